@@ -426,7 +426,22 @@ def generate(cfg="A", builddir=None, outpath=None):
                 f.write(_c.stub("ScpiVerif.Gen.HeapC", failed["heap_c"]))
         except Exception:
             pass
-    gens = {"fifo_c": fifo_c, "heap_c": heap_c, "intfmt_c": intfmt_c, "lexer_c": lexer_c}
+    # C -> Lean translation of the status-register functions of ieee488.c (Gen/RegsC.lean): same treatment, own section
+    regs_c = {"functions": [], "changed": False}
+    try:
+        import c2lean_regs
+        regs_c = c2lean_regs.generate_regs(os.path.join(os.path.dirname(outpath), "RegsC.lean"))
+        if regs_c["failed"]:
+            failed["regs_c"] = "; ".join("%s: %s" % kv for kv in sorted(regs_c["failed"].items()))[:400]
+    except Exception as e:
+        failed["regs_c"] = ("c2lean_regs: %s: %s" % (type(e).__name__, e))[:400]
+        try:
+            import c2lean as _c
+            with open(os.path.join(os.path.dirname(outpath), "RegsC.lean"), "w") as f:
+                f.write(_c.stub("ScpiVerif.Gen.RegsC", failed["regs_c"]))
+        except Exception:
+            pass
+    gens = {"fifo_c": fifo_c, "regs_c": regs_c, "heap_c": heap_c, "intfmt_c": intfmt_c, "lexer_c": lexer_c}
     rows = {"errclass": len(errclass), "errdesc": len(errdesc), "units": len(unit_rows), "special": len(special)}
     for _n, _g in gens.items():
         rows[_n + "_functions"] = len(_g.get("functions", []))
